@@ -470,7 +470,7 @@ func (x *Exec) checkFrame(st *State, key string, ref Term) {
 	x.oblige(st, "frame", key, cond, fc.contract.frameTags(), token.NoPos)
 }
 
-func (c *Contract) frameTags() []string { return []string{"C12", "C20"} }
+func (c *Contract) frameTags() []string { return append([]string{"C12", "C20"}, c.FrameTags...) }
 
 func (x *Exec) frameAllowed(fc *FuncCtx, key string) bool {
 	// key: H|T|path, A|T|path, V|global|path, G|ghost, M|...
